@@ -664,6 +664,12 @@ impl<R: io::Read> io::Read for LiteralDataPartialGenerator<R> {
                 PacketLength::Fixed(len)
             };
 
+            crate::verif_event!(
+                "lit.chunk",
+                self.is_first,
+                buf_size,
+                matches!(packet_length, PacketLength::Partial(_))
+            );
             let mut writer = std::mem::take(&mut self.current_packet).writer();
             if self.is_first {
                 // only the first packet needs the literal data header
